@@ -1,7 +1,6 @@
 SPECIFICATION Spec
 CONSTANTS
   Mode = "monitor"
-  Known = {"C20-1"}
   NC = 7
 CONSTRAINT HW
 INVARIANT Inv
